@@ -64,6 +64,9 @@ type FetchResp struct {
 	CutFn func(frameLen int) int
 }
 
+// OffsetHang, returned as the error code by OnOffset, makes the broker stop answering on that connection.
+const OffsetHang int16 = -32000
+
 type Broker struct {
 	FetchMax   int16 // advertised max fetch version (2, 5 or 10 select the library's v2/v5/v10)
 	Topic      string
@@ -169,6 +172,11 @@ func (b *Broker) serve(c net.Conn, id int) {
 			off, e := int64(0), int16(0)
 			if b.OnOffset != nil {
 				off, e = b.OnOffset(id, ts)
+			}
+			if e == OffsetHang {
+				// the request was read; no response, connection kept open (the client's deadline has to end the call)
+				io.Copy(io.Discard, c)
+				return
 			}
 			be32(&body, 1)
 			wstr(&body, b.Topic)
